@@ -86,6 +86,13 @@ def new_tensor(state, spec):
     return qtn.Tensor(data, inds=inds, tags=tags)
 
 
+def add_loose(s, t):
+    """put a tensor into the loose pool once (the pool must never hold the same object twice, otherwise a later
+    new_network could add one object twice virtually - outside the domain)"""
+    if not any(x is t for x in s.tensors):
+        s.tensors.append(t)
+
+
 def pick(seq, k):
     seq = list(seq)
     if not seq:
@@ -238,11 +245,11 @@ tensor_spec_rep = st.tuples(st.lists(st.integers(0, 7), min_size=2, max_size=3),
 
 
 def op_new_tensor(s, a):
-    s.tensors.append(new_tensor(s, a))
+    add_loose(s, new_tensor(s, a))
 
 
 def op_new_tensor_rep(s, a):
-    s.tensors.append(new_tensor(s, a))
+    add_loose(s, new_tensor(s, a))
 
 
 def op_new_network(s, a):
@@ -378,7 +385,7 @@ def op_pop(s, a):
         t = tn.pop_tensor(tid)
     if t is not t0:
         raise Violation("pop-returned-other")
-    s.tensors.append(t)
+    add_loose(s, t)
 
 
 def op_delete(s, a):
@@ -412,7 +419,7 @@ def op_setitem(s, a):
     tn[tag] = new
     if tn.tensor_map.get(tid) is not new:
         raise Violation("setitem-not-placed")
-    s.tensors.append(old)
+    add_loose(s, old)
 
 
 def any_tensor(s, k):
@@ -434,7 +441,7 @@ def op_reindex_tensor(s, a):
     if inplace:
         t.reindex_({old: new})
     else:
-        s.tensors.append(t.reindex({old: new}))
+        add_loose(s, t.reindex({old: new}))
 
 
 def op_reindex_tensor_merge(s, a):
@@ -617,7 +624,7 @@ def op_isel(s, a):
         if inplace:
             t.isel_({ix: 0})
         else:
-            s.tensors.append(t.isel({ix: 0}))
+            add_loose(s, t.isel({ix: 0}))
     else:
         tn = pick_net(s, ni)
         labels = sorted(tn.ind_map)
@@ -642,7 +649,7 @@ def op_squeeze(s, a):
         if inplace:
             t.squeeze_()
         else:
-            s.tensors.append(t.squeeze())
+            add_loose(s, t.squeeze())
     else:
         tn = pick_net(s, ni)
         s.nmut += 1
@@ -722,7 +729,7 @@ def op_split(s, a):
     tn.split_tensor(tag, left, method=["svd", "qr", "eig"][method % 3], cutoff=0.0)
     if tn.num_tensors != n0 + 1:
         raise Violation("split-count", got=tn.num_tensors, want=n0 + 1)
-    s.tensors.append(t)  # the popped original stays a loose tensor
+    add_loose(s, t)  # the popped original stays a loose tensor
 
 
 def op_contract(s, a):
@@ -847,7 +854,7 @@ def op_select(s, a):
             raise Violation("partition-tensors-result")
         if virtual and {id(t) for t in ts} != objs:
             raise Violation("partition-tensors-inplace-objects")
-        s.tensors.extend(ts)
+        [add_loose(s, t_) for t_ in ts]
         if not virtual:
             s.nets.append(rest)
         s.nmut += 1
@@ -931,7 +938,7 @@ def op_tensor_copy(s, a):
     c = t.copy(deep=deep)
     if c.check_owners():
         raise Violation("tensor-copy-has-owners")
-    s.tensors.append(c)
+    add_loose(s, c)
 
 
 def op_astype_conj(s, a):
@@ -1040,7 +1047,7 @@ init_strategy = st.fixed_dictionaries({
 def start(init):
     s = State()
     for spec in init["tensors"]:
-        s.tensors.append(new_tensor(s, spec))
+        add_loose(s, new_tensor(s, spec))
     for picks, virtual in init["nets"]:
         idx = sorted({p % len(s.tensors) for p in picks})
         s.nets.append(Q().TensorNetwork([s.tensors[i] for i in idx], virtual=virtual))
@@ -1066,5 +1073,7 @@ SPEC = MachineSpec(init=init_strategy, start=start, ops=OPS, invariant=invariant
 SUBCHECKS = [
     SubCheck("history", machine=SPEC, examples=(60, 1500), shards=(8, 16),
              rule="rule-based machine, fresh-scan oracle after every step; nt: >=4 mutating steps and (shared tensor touched or gc of a viewing network or repeated label)",
-             soft_budget=(80.0, 900.0)),
+             soft_budget=(80.0, 900.0),
+             fuzz={"instrument": ["quimb.tensor.tensor_core:Tensor", "quimb.tensor.tensor_core:TensorNetwork", "quimb.utils:oset"],
+                   "shards": 8, "runs": 20000, "max_seconds": 600}),
 ]
